@@ -56,6 +56,13 @@ def attributed(ob, prop, unit):
         return True
     if prop in unit.get("dep_props", []):
         return True
+    # a clause tagged only for properties this unit is not registered for (typically the
+    # call-site precondition of a callee that belongs to another component) is still a
+    # verification condition of this unit: it counts for every property the unit serves
+    listed = set(unit.get("props", [])) | set(unit.get("dep_props", []))
+    tagged_for = {t.split(".")[0] for t in ob["tags"] if t[:1] == "C" and "." in t}
+    if tagged_for and not (tagged_for & listed):
+        return True
     return False
 
 
